@@ -60,13 +60,15 @@ def gen_pep(R):
     if R.random() < 0.15:
         s = R.choice(["v", "V"]) + s
     if R.random() < 0.05:
-        s = R.choice([" ", "\t", "\n"]) + s + R.choice(["", " ", "\n"])
+        s = R.choice([" ", "\t", "\n", "\u2003", "\xa0"]) + s + R.choice(["", " ", "\n", "\u2003", "\x1c"])
     return s
 
 
 LEGACY_FIXED = ["v2017q1.54321", "v201712.0033-beta-x", "junk", "", "latest", "1.2.3-final", "2020.10-final", "1..2",
                 "v", "1.0-", "1.0+", "1.0a.b", "1_2", "2021w05", "foo-1.0", "1.0.x", "1.0-final0", "1 .0", "١٢٣",
-                "1.0\x00", "v1.0-preview-2", "1.0rc1x", "1e3", "0x10", "1.0..dev", "-1", "+1", "1!", "!1"]
+                "1.0\x00", "v1.0-preview-2", "1.0rc1x", "1e3", "0x10", "1.0..dev", "-1", "+1", "1!", "!1",
+                # letters that only LOOK like / case-fold to ASCII letters (long s, dotless i, dotted I, Kelvin sign)
+                "1.0.po\u017ft1", "1.0prev\u0131ew1", "1.0+\u212a", "1.0+\u0130", "1.0.de\u1e9e1", "1.0\u017f", "1.0r\u0131"]
 
 
 def gen_legacy(R):
@@ -75,6 +77,13 @@ def gen_legacy(R):
         return R.choice(LEGACY_FIXED)
     if r < 0.6:
         base = gen_pep(R)
+        if R.random() < 0.2:
+            # a valid spelling with ONE letter replaced by a non-ASCII look-alike: no longer PEP 440
+            look = {"s": "\u017f", "i": "\u0131", "k": "\u212a", "I": "\u0130", "S": "\u017f", "K": "\u212a"}
+            idx = [i for i, c in enumerate(base) if c in look]
+            if idx:
+                i = R.choice(idx)
+                return base[:i] + look[base[i]] + base[i + 1:]
         return base + R.choice(["-final", "x", "..", "-", "_", "q", "-final-", "+"])
     if r < 0.8:
         return "".join(R.choice("abcxyz019.-_ vq") for _ in range(R.randint(1, 12)))
